@@ -35,15 +35,15 @@ theorem updF_updF {α β : Type} [DecidableEq α] (f : α → β) (a : α) (b c 
 theorem updF_self {α β : Type} [DecidableEq α] (f : α → β) (a : α) : updF f a (f a) = f := by
   funext x; by_cases h : x = a <;> simp [updF, h]
 
-/-- storage as the object shows it: dirty value, else the record -/
+/-- storage as the object shows it: dirty value, else the record (nothing for a `created` object) -/
 def Obj.slotView (st : Store) (o : Obj) (k : Key) : Val :=
   match alookup k o.dirty with
   | some v => v
-  | none => st.slot o.addr k
+  | none => o.base st k
 
 def viewObj (st : Store) (o : Obj) : AView :=
   { nonce := o.nonce, bal := o.bal, hash := o.codeHash, code := o.getCode st,
-    stor := o.slotView st, cstor := fun k => st.slot o.addr k, suicided := o.suicided }
+    stor := o.slotView st, cstor := fun k => o.base st k, suicided := o.suicided }
 
 def Store.view (st : Store) (a : Addr) : Option AView := (st.getAccount a).map (viewObj st)
 
@@ -130,8 +130,10 @@ theorem JOK_append (st : Store) (l1 l2 : List Entry) (W : AW) :
 
 def cntOf (es : List Entry) (a : Addr) : Nat := (es.filterMap Entry.dirtied).count a
 
-def JCnt (j : Journal) : Prop :=
-  ∀ a, alookup a j.dirties = if cntOf j.entries a = 0 then none else some (cntOf j.entries a)
+/-- the dirty counters cover the live journal entries: an address that a live entry dirties has at
+    least that count (exactly that count, but for the RIPEMD touch exception, whose extra counts no
+    revert takes back), so `Finalise` treats it as dirty -/
+def JCnt (j : Journal) : Prop := ∀ a, cntOf j.entries a ≤ j.getDirty a
 
 theorem cntOf_snoc (pre : List Entry) (e : Entry) (a : Addr) :
     cntOf (pre ++ [e]) a = cntOf pre a + (if e.dirtied = some a then 1 else 0) := by
@@ -143,108 +145,108 @@ theorem cntOf_snoc (pre : List Entry) (e : Entry) (a : Addr) :
     · subst hb; simp [List.filterMap, hd]
     · simp [List.filterMap, hd, hb]
 
-theorem JCnt.new : JCnt Journal.new := by intro a; simp [Journal.new, cntOf, alookup]
+theorem JCnt.new : JCnt Journal.new := by intro a; simp [Journal.new, cntOf]
 
-theorem JCnt.getDirty {j : Journal} (h : JCnt j) (a : Addr) : j.getDirty a = cntOf j.entries a := by
-  unfold Journal.getDirty
-  rw [h a]
-  by_cases hz : cntOf j.entries a = 0 <;> simp [hz]
+theorem getDirty_addDirty (j : Journal) (b a : Addr) :
+    (j.addDirty b).getDirty a = if a = b then j.getDirty b + 1 else j.getDirty a := by
+  simp only [Journal.getDirty, Journal.addDirty, alookup_upsert]
+  by_cases h : a = b <;> simp [h]
 
-theorem JCnt.addDirty {j : Journal} (es' : List Entry) (b : Addr)
-    (hcnt : ∀ a, cntOf es' a = cntOf j.entries a + (if b = a then 1 else 0)) (h : JCnt j) :
-    JCnt { (j.addDirty b) with entries := es' } := by
+/-- the extra count of the RIPEMD touch -/
+theorem JCnt.extra {j : Journal} (h : JCnt j) (b : Addr) : JCnt (j.addDirty b) := by
   intro a
-  show alookup a (upsert j.dirties b (j.getDirty b + 1)) = _
-  rw [alookup_upsert, hcnt a]
+  rw [getDirty_addDirty]
+  show cntOf j.entries a ≤ _
+  have := h a
   by_cases hb : a = b
-  · subst hb
-    simp [h.getDirty a]
-  · have hb' : ¬ b = a := fun e => hb e.symm
-    simp only [hb, hb', if_false, Nat.add_zero]
-    exact h a
+  · subst hb; simp only [if_true]; omega
+  · simp only [hb, if_false]; exact this
 
 theorem JCnt.append {j : Journal} (h : JCnt j) (e : Entry) : JCnt (j.append e) := by
   unfold Journal.append
   cases hd : e.dirtied with
   | none =>
     intro a
-    show alookup a j.dirties = _
-    simp only [cntOf_snoc, hd, reduceCtorEq, if_false, Nat.add_zero]
-    exact h a
+    show cntOf (j.entries ++ [e]) a ≤ j.getDirty a
+    rw [cntOf_snoc, hd]
+    simpa using h a
   | some b =>
-    have := JCnt.addDirty (j := j) (j.entries ++ [e]) b (by intro a; rw [cntOf_snoc, hd]; simp) h
-    exact this
+    intro a
+    show cntOf (j.entries ++ [e]) a ≤ (({ j with entries := j.entries ++ [e] } : Journal).addDirty b).getDirty a
+    rw [getDirty_addDirty, cntOf_snoc, hd]
+    have h1 : ({ j with entries := j.entries ++ [e] } : Journal).getDirty a = j.getDirty a := rfl
+    have h2 : ({ j with entries := j.entries ++ [e] } : Journal).getDirty b = j.getDirty b := rfl
+    rw [h1, h2]
+    have := h a
+    by_cases hb : a = b
+    · subst hb; simp only [if_true]; omega
+    · have hb' : ¬ b = a := fun e => hb e.symm
+      simp only [hb, if_false, Option.some.injEq, hb', Nat.add_zero]; exact this
+
+theorem getDirty_aerase (j : Journal) (a b : Addr) :
+    (j.deleteDirty a).getDirty b = if b = a then 0 else j.getDirty b := by
+  simp only [Journal.getDirty, Journal.deleteDirty, alookup_aerase]
+  by_cases h : b = a <;> simp [h]
+
+theorem getDirty_undirty (j : Journal) (e : Entry) (b : Addr) :
+    (j.undirty e).getDirty b = if e.dirtied = some b then j.getDirty b - 1 else j.getDirty b := by
+  unfold Journal.undirty
+  cases hd : e.dirtied with
+  | none => simp
+  | some a =>
+    simp only [Option.some.injEq]
+    -- the count of `a` after `substractDirty`
+    have hsub : (j.subDirty a).getDirty a = j.getDirty a - 1 ∧ ∀ b, b ≠ a → (j.subDirty a).getDirty b = j.getDirty b := by
+      unfold Journal.subDirty
+      cases hl : alookup a j.dirties with
+      | none => simp [Journal.getDirty, hl]
+      | some n =>
+        by_cases hn : n = 0
+        · simp [hn, Journal.getDirty, hl]
+        · simp only [hn, if_false]
+          refine ⟨by simp [Journal.getDirty, hl], ?_⟩
+          intro b hb
+          simp [Journal.getDirty, alookup_upsert, hb]
+    by_cases hz : (j.subDirty a).getDirty a = 0
+    · simp only [hz, if_true]
+      rw [getDirty_aerase]
+      by_cases hb : b = a
+      · subst hb; simp only [if_true]; rw [← hsub.1, hz]
+      · have hb' : ¬ a = b := fun e => hb e.symm
+        simp only [hb, hb', if_false]; exact hsub.2 b hb
+    · simp only [hz, if_false]
+      by_cases hb : b = a
+      · subst hb; simp only [if_true]; exact hsub.1
+      · have hb' : ¬ a = b := fun e => hb e.symm
+        simp only [hb', if_false]; exact hsub.2 b hb
 
 theorem JCnt.pop {j : Journal} (h : JCnt j) (pre : List Entry) (e : Entry) (hsplit : j.entries = pre ++ [e]) :
     JCnt { (j.undirty e) with entries := pre } := by
-  have hc : ∀ a, cntOf j.entries a = cntOf pre a + (if e.dirtied = some a then 1 else 0) := by
-    intro a; rw [hsplit, cntOf_snoc]
-  unfold Journal.undirty
-  cases hd : e.dirtied with
-  | none =>
-    intro a
-    show alookup a j.dirties = _
-    have := hc a
-    simp only [hd, reduceCtorEq, if_false, Nat.add_zero] at this
-    rw [← this]; exact h a
-  | some b =>
-    have hcb := hc b
-    simp only [hd, if_true] at hcb
-    have hlb : alookup b j.dirties = some (cntOf pre b + 1) := by
-      rw [h b, hcb]; simp
-    have hsub : j.subDirty b = { j with dirties := upsert j.dirties b (cntOf pre b) } := by
-      simp [Journal.subDirty, hlb]
-    have hget : (j.subDirty b).getDirty b = cntOf pre b := by
-      rw [hsub]; simp [Journal.getDirty]
-    simp only [hget]
-    intro a
-    have hca := hc a
-    simp only [hd, Option.some.injEq] at hca
-    by_cases hz : cntOf pre b = 0
-    · simp only [hz, if_true]
-      show alookup a (aerase (j.subDirty b).dirties b) = _
-      rw [hsub, alookup_aerase]
-      by_cases hab : a = b
-      · subst hab; simp [hz]
-      · have hba : ¬ b = a := fun e => hab e.symm
-        simp only [hab, if_false, alookup_upsert]
-        simp only [hba, if_false, Nat.add_zero] at hca
-        rw [← hca]; exact h a
-    · simp only [hz, if_false]
-      show alookup a (j.subDirty b).dirties = _
-      rw [hsub]
-      show alookup a (upsert j.dirties b (cntOf pre b)) = _
-      rw [alookup_upsert]
-      by_cases hab : a = b
-      · subst hab; simp [hz]
-      · have hba : ¬ b = a := fun e => hab e.symm
-        simp only [hab, if_false]
-        simp only [hba, if_false, Nat.add_zero] at hca
-        rw [← hca]; exact h a
+  intro a
+  show cntOf pre a ≤ (j.undirty e).getDirty a
+  rw [getDirty_undirty]
+  have hc : cntOf j.entries a = cntOf pre a + (if e.dirtied = some a then 1 else 0) := by rw [hsplit, cntOf_snoc]
+  have := h a
+  by_cases hd : e.dirtied = some a
+  · simp only [hd, if_true] at hc ⊢; omega
+  · simp only [hd, if_false] at hc ⊢; omega
 
 theorem JCnt.mem {j : Journal} (h : JCnt j) (a : Addr) (ha : a ∈ j.entries.filterMap Entry.dirtied) :
     a ∈ j.dirties.map (·.1) := by
-  have hpos : cntOf j.entries a ≠ 0 := by
+  have hpos : 0 < cntOf j.entries a := by
     simp only [cntOf]
-    exact Nat.ne_of_gt (List.count_pos_iff.mpr ha)
-  have := h a
-  simp only [hpos, if_false] at this
-  exact (mem_akeys_iff_alookup j.dirties a).mpr (by simp [this])
-
-theorem JCnt.mem_iff {j : Journal} (h : JCnt j) (a : Addr) :
-    a ∈ j.dirties.map (·.1) ↔ a ∈ j.entries.filterMap Entry.dirtied := by
-  refine ⟨?_, h.mem a⟩
-  intro hm
-  have hs := (mem_akeys_iff_alookup j.dirties a).mp hm
-  rw [h a] at hs
-  by_cases hz : cntOf j.entries a = 0
-  · simp [hz] at hs
-  · simp only [cntOf] at hz
-    exact List.count_pos_iff.mp (Nat.pos_of_ne_zero hz)
+    exact List.count_pos_iff.mpr ha
+  have hge := h a
+  apply (mem_akeys_iff_alookup j.dirties a).mpr
+  cases hl : alookup a j.dirties with
+  | some n => rfl
+  | none =>
+    have : j.getDirty a = 0 := by simp [Journal.getDirty, hl]
+    omega
 
 /-! ## invariants -/
 
-def OriginOK (st : Store) (o : Obj) : Prop := ∀ k v, alookup k o.origin = some v → v = st.slot o.addr k
+def OriginOK (st : Store) (o : Obj) : Prop := ∀ k v, alookup k o.origin = some v → v = o.base st k
 def DirtyHasOrigin (o : Obj) : Prop := ∀ k, (alookup k o.dirty).isSome → (alookup k o.origin).isSome
 
 structure ObjOK (st : Store) (o : Obj) : Prop where
@@ -256,12 +258,15 @@ structure ObjOK (st : Store) (o : Obj) : Prop where
   dc : o.code ≠ 0 → o.dirtyCode = true
   dho : DirtyHasOrigin o
 
-/-- the records are sane: no empty account is stored, an absent account has no storage records,
-    the code of every stored account is present -/
+/-- the records are sane: no empty account is stored, the code of every stored account is present -/
 structure StoreOK (st : Store) : Prop where
   nonEmpty : ∀ a o, st.getAccount a = some o → o.empty = false
-  absentClean : ∀ a, st.getAccount a = none → ∀ k, st.slot a k = 0
   codes : ∀ a n h, alookup a st.acct = some (n, h) → h ≠ 0 → st.codeAt h = h
+
+/-- no storage record is left under an address that has no account (what 8684164 repairs at the
+    level of the records; not needed for the refinement, where a `created` object hides such
+    records anyway): kept by every call, see `noOrphan_step` -/
+def NoOrphanStorage (st : Store) : Prop := ∀ a, st.getAccount a = none → ∀ k, st.slot a k = 0
 
 structure CInv (s : Impl) : Prop where
   objs : ∀ a o, alookup a s.objs = some o → o.addr = a ∧ ObjOK s.store o
@@ -278,6 +283,19 @@ theorem getAccount_addr (st : Store) (a : Addr) (o : Obj) (h : st.getAccount a =
   · split at h
     · cases h
     · cases h; simp [Obj.fresh]
+
+theorem getAccount_created (st : Store) (a : Addr) (o : Obj) (h : st.getAccount a = some o) : o.created = false := by
+  unfold Store.getAccount at h
+  split at h
+  · cases h; simp [Obj.fresh]
+  · split at h
+    · cases h
+    · cases h; simp [Obj.fresh]
+
+/-- an object loaded from the records reads the records -/
+theorem base_loaded (st : Store) (a : Addr) (o : Obj) (h : st.getAccount a = some o) (k : Key) :
+    o.base st k = st.slot a k := by
+  simp [Obj.base, getAccount_created st a o h, (getAccount_addr st a o h).1]
 
 theorem getAccount_ok (st : Store) (hs : StoreOK st) (a : Addr) (o : Obj) (h : st.getAccount a = some o) : ObjOK st o := by
   have hf := getAccount_addr st a o h
@@ -583,7 +601,9 @@ theorem viewObj_setStateRaw (st : Store) (o : Obj) (k : Key) (p : Val) :
   have : Obj.slotView st (o.setStateRaw k p) = updF (Obj.slotView st o) k p := by
     funext k'
     simp only [Obj.slotView, Obj.setStateRaw, alookup_upsert, updF]
-    by_cases hk : k' = k <;> simp [hk]
+    by_cases hk : k' = k
+    · simp [hk]
+    · simp only [hk, if_false]; rfl
   simp only [viewObj, this]
   rfl
 
@@ -1270,7 +1290,6 @@ structure Sim (s : Impl) (r : Ref) : Prop where
   idsLt : ∀ x ∈ s.revisions, x.1 < s.nextRev
   idsSorted : (s.revisions.map (·.1)).Pairwise (· < ·)
   jSorted : (s.revisions.map (·.2)).Pairwise (· ≤ ·)
-  sticky : r.sticky = []
   jok : JOK s.store (absI s) s.journal.entries.reverse
   cnt : JCnt s.journal
   ook : OOK s.okOf s.journal.entries.reverse
@@ -1288,7 +1307,7 @@ theorem Sim.journaled {s s' : Impl} {r : Ref} {w' : RWorld} (h : Sim s r) (es : 
     (hjok : JOK s.store (absI s') es.reverse) (hcnt : JCnt s'.journal)
     (hook : OOK s'.okOf s'.journal.entries.reverse) :
     Sim s' (r.withCur w') := by
-  refine ⟨hc, ?_, habs, ?_, ?_, ?_, ?_, hnd, ?_, ?_, ?_, ?_, h.sticky, ?_, hcnt, hook⟩
+  refine ⟨hc, ?_, habs, ?_, ?_, ?_, ?_, hnd, ?_, ?_, ?_, ?_, ?_, hcnt, hook⟩
   · rw [hst, hje]; exact entriesOK_append.mpr ⟨h.entries, hes⟩
   · rw [hth]; exact h.thash
   · rw [hnr]; exact h.nextRev
@@ -1384,17 +1403,18 @@ theorem view_none_uncached (s : Impl) (hc : CInv s) (a : Addr) (h : s.view a = n
     rw [h] at this; cases this
   | none => exact ⟨rfl, by rw [← view_of_uncached s a hl]; exact h⟩
 
-theorem viewObj_fresh (st : Store) (hs : StoreOK st) (a : Addr) (h : st.view a = none) :
-    viewObj st (Obj.fresh a 0) = viewR (RAcct.fresh 0) := by
-  have hn := store_view_none st a h
-  have hz : ∀ k, st.slot a k = 0 := hs.absentClean a hn.1
-  simp only [viewObj, viewR, Obj.fresh, RAcct.fresh, Obj.getCode, AView.mk.injEq]
+/-- the object `createObject` makes shows an account without storage, whatever the records hold
+    under the address (8684164) -/
+theorem viewObj_make (st : Store) (a : Addr) (b : Nat) :
+    viewObj st (Obj.make a b) = viewR (RAcct.fresh b) := by
+  simp only [viewObj, viewR, Obj.make, Obj.fresh, RAcct.fresh, Obj.getCode, AView.mk.injEq]
   refine ⟨trivial, trivial, trivial, by simp, ?_, ?_, trivial⟩
-  · funext k; simp [Obj.slotView, RAcct.slot, hz]
-  · funext k; simp [RAcct.cslot, hz]
+  · funext k; simp [Obj.slotView, RAcct.slot, Obj.base, alookup]
+  · funext k; simp [RAcct.cslot, Obj.base, alookup]
 
-theorem objOK_fresh (st : Store) (a : Addr) (b : Nat) : ObjOK st (Obj.fresh a b) :=
-  ⟨by intro k v h; simp [Obj.fresh] at h, by simp [Obj.getCode, Obj.fresh], by simp [Obj.fresh], rfl, by simp [Obj.fresh, akeys], by simp [Obj.fresh], by intro k hk; simp [Obj.fresh] at hk⟩
+theorem objOK_make (st : Store) (a : Addr) (b : Nat) : ObjOK st (Obj.make a b) :=
+  ⟨by intro k v h; simp [Obj.make, Obj.fresh] at h, by simp [Obj.getCode, Obj.make, Obj.fresh], by simp [Obj.make, Obj.fresh], rfl,
+   by simp [Obj.make, Obj.fresh, akeys], by simp [Obj.make, Obj.fresh], by intro k hk; simp [Obj.make, Obj.fresh] at hk⟩
 
 /-! ### getOrNew on both sides -/
 
@@ -1462,10 +1482,9 @@ theorem getOrNew_spec {s s0 s1 : Impl} {r : Ref} {w0 : RWorld} {es : List Entry}
             have hgn : w0.getOrNew a = (w0.put a (RAcct.fresh 0), RAcct.fresh 0) := by simp [RWorld.getOrNew, hw]
             rw [hgn]
             have hcc : CInv sc := jappend_cinv sb sc _ hj hs2.1
-            have hfok : ObjOK sc.store (Obj.fresh a 0) := objOK_fresh _ _ _
-            have hvf : viewObj s.store (Obj.fresh a 0) = viewR (RAcct.fresh 0) :=
-              viewObj_fresh s.store (st.store ▸ st.cinv.store) a hsv
-            have habs : absI (sc.setObj (Obj.fresh a 0)) = absR (w0.put a (RAcct.fresh 0)) := by
+            have hfok : ObjOK sc.store (Obj.make a 0) := objOK_make _ _ _
+            have hvf : viewObj s.store (Obj.make a 0) = viewR (RAcct.fresh 0) := viewObj_make s.store a 0
+            have habs : absI (sc.setObj (Obj.make a 0)) = absR (w0.put a (RAcct.fresh 0)) := by
               rw [absI_setObj sc _ rfl, absR_put, ← st.abs]
               have : absI sc = absI s0 := by
                 have h1 : absI sc = absI sb := by
@@ -1474,9 +1493,9 @@ theorem getOrNew_spec {s s0 s1 : Impl} {r : Ref} {w0 : RWorld} {es : List Entry}
                 rw [h1, absI_of_sameBut hsb hvb]
               rw [this, hjs.2.2.1, hstore, hvf]
               rfl
-            refine ⟨[Entry.createObject a], ?_, by simp [Impl.setObj, Obj.fresh], rfl, objOK_fresh _ _ _, hvf,
+            refine ⟨[Entry.createObject a], ?_, by simp [Impl.setObj, Obj.make, Obj.fresh], rfl, objOK_make _ _ _, hvf,
               by simp [RWorld.get, RWorld.put], ?_⟩
-            have hundoC : Entry.undo s.store (Entry.createObject a) (absI (sc.setObj (Obj.fresh a 0))) = absI s0 := by
+            have hundoC : Entry.undo s.store (Entry.createObject a) (absI (sc.setObj (Obj.make a 0))) = absI s0 := by
               rw [habs, absR_put, ← st.abs]
               simp only [Entry.undo, updF_updF]
               have : (absI s0).acct a = none := hvn
@@ -1495,7 +1514,7 @@ theorem getOrNew_spec {s s0 s1 : Impl} {r : Ref} {w0 : RWorld} {es : List Entry}
               · exact entriesOK_append.mpr ⟨st.static, by intro e he; simp at he; subst he; exact hsv⟩
               · rw [List.reverse_append, undoAbs_append]
                 simp only [List.reverse_cons, List.reverse_nil, List.nil_append, undoAbs]
-                have : Entry.undo s.store (Entry.createObject a) (absI (sc.setObj (Obj.fresh a 0))) = absI s0 := by
+                have : Entry.undo s.store (Entry.createObject a) (absI (sc.setObj (Obj.make a 0))) = absI s0 := by
                   rw [habs, absR_put, ← st.abs]
                   simp only [Entry.undo, updF_updF]
                   have : (absI s0).acct a = none := hvn
@@ -1515,7 +1534,7 @@ theorem getOrNew_spec {s s0 s1 : Impl} {r : Ref} {w0 : RWorld} {es : List Entry}
               · show JCnt sc.journal
                 rw [jappend_journal sb sc _ hj, hsb.journal]
                 exact st.cnt.append _
-              · show OOK (sc.setObj (Obj.fresh a 0)).okOf sc.journal.entries.reverse
+              · show OOK (sc.setObj (Obj.make a 0)).okOf sc.journal.entries.reverse
                 rw [hjs.1, hsb.journal, List.reverse_append]
                 refine ⟨trivial, OOK_mono _ ?_ st.ook⟩
                 intro b k hb
@@ -1524,7 +1543,7 @@ theorem getOrNew_spec {s s0 s1 : Impl} {r : Ref} {w0 : RWorld} {es : List Entry}
                 by_cases hba : b = a
                 · subst hba
                   simp [Impl.okOf, hun.1] at hb
-                · simp only [hba, if_false, okOf_setObj, Obj.fresh]
+                · simp only [hba, if_false, okOf_setObj, Obj.make, Obj.fresh]
                   simpa [Impl.okOf, hjs.2.1] using hb1
             · exact (hsb.toRest.trans (jappend_sameRest sb sc _ hj)).trans (setObj_sameRest sc _)
 
